@@ -155,6 +155,7 @@ def main():
         print(line)
     # ---- jobs
     jobs = []
+    skipped = []
     idx = 0
     for o in obs:
         if a.only and a.only not in o.name:
@@ -162,8 +163,14 @@ def main():
         cfg = o.tier_cfg(tier)
         if cfg is None:
             continue
-        carve = [f["predicate"] for f in active.get(o.name, [])]
+        carve = [f["predicate"] for f in active.get(o.name, []) if f.get("predicate")]
         for shard in o.shards(tier):
+            # a listed finding that makes a whole shard fail (every input of that arrangement) is not carved out by a
+            # predicate (the harness would become vacuous): the shard is skipped while its witness still fails
+            sk = [f for f in active.get(o.name, []) if f.get("skip_shard") and all(shard.get(k) == v for k, v in f["skip_shard"].items())]
+            if sk:
+                skipped.append({"obligation": o.name, "shard": shard, "known_finding": sk[0]["id"]})
+                continue
             spec = {"module": o.module, "prop": prop, "name": o.name, "tier": tier, "shard": shard, "carve": carve, "seed": seed, "idx": idx}
             hard = cfg["timeout"] * 1.25 + cfg.get("twin_timeout", 120) + 180
             jobs.append((spec, hard))
@@ -209,7 +216,7 @@ def main():
         print(f"VIOLATION property={prop} replay={os.path.relpath(rp, VERIF)}")
     wall = time.time() - t0
     if not a.no_evidence and not a.only:
-        _ev.write(prop, tier, seed, obs, results, kf_lines, wall, len(violations))
+        _ev.write(prop, tier, seed, obs, results, kf_lines, wall, len(violations), skipped)
     print(f"{prop} tier={tier}: {sum(1 for r in results if r.get('final') == 'discharged')}/{len(results)} obligations discharged, "
           f"{len(violations)} violation(s), {len(inconclusive)} inconclusive, wall {wall:.0f}s")
     if violations:
